@@ -155,4 +155,13 @@ func init() {
 		variant{Name: "benign-trim-loop-counts-from-zero", File: utils, Find: trimLoop,
 			Replace: "\tfor i, off, n := 0, q.Start(), q.Len(); i < n; i++ {\n\t\tsum += limit - q.EAt(off+i)\n\t\tif sum < 0 {\n\t\t\tsum, begin = 0, off+i+1\n\t\t}\n\t\tif sum >= max {\n\t\t\tmax, start, end = sum, begin, off+i+1\n\t\t}\n\t}\n"},
 	)
+	// round 23
+	const qualTail = "\tline = bytes.Join(bytes.Fields(line), nil)\n\tif len(line) != len(seqBuff) {\n\t\treturn nil, errors.New(\"fastq: sequence/quality length mismatch\")\n\t}\n"
+	add("C03",
+		variant{Name: "quality-line-counted-before-its-blanks-are-removed", File: fastq, Find: qualTail,
+			Replace: "\tif len(line) != len(seqBuff) {\n\t\treturn nil, errors.New(\"fastq: sequence/quality length mismatch\")\n\t}\n\tline = bytes.Join(bytes.Fields(line), nil)\n",
+			Rule:    "qualcount", Key: "fastq.(*Reader).Read/decoded-line-is-the-counted-line"},
+		variant{Name: "benign-quality-line-counted-through-temporaries", File: fastq, Find: qualTail,
+			Replace: "\tline = bytes.Join(bytes.Fields(line), nil)\n\tif nq, nl := len(line), len(seqBuff); nl != nq {\n\t\treturn nil, errors.New(\"fastq: sequence/quality length mismatch\")\n\t}\n"},
+	)
 }
